@@ -1,7 +1,8 @@
 (* C26 — BungeeCord messaging channel behaves like BungeeCord (as ported by Velocity).
    Only statements and `exact`; proofs in Proofs/C26.v, model in Model/Bungee.v.
-   spec_bungee = model all_fixed (BungeeCord/Velocity semantics), impl_bungee = model none_fixed (today's
-   code); run_sub F st req oracle s args is the handler of sub-channel s after Process read its name. *)
+   spec_bungee = model all_fixed (BungeeCord/Velocity semantics), impl_bungee = model current (today's code:
+   findings 1 and 6 repaired, 2/3/4 open), model none_fixed = the pre-fix variant;
+   run_sub F st req oracle s args is the handler of sub-channel s after Process read its name. *)
 From Coq Require Import List NArith Bool String.
 From Verif Require Import Base.Hex Model.Bungee Check.C26 Proofs.C26.
 Import ListNotations.
@@ -111,11 +112,28 @@ Theorem impl_eq_spec_off_trigger : forall F st req oracle s a,
 Proof. exact impl_eq_spec_off_trigger_proof. Qed.
 Print Assumptions impl_eq_spec_off_trigger.
 
-(* ... and differs inside them (witnesses; state st0 = Alice on lobby (requester), Bob on games). *)
+(* truncated argument bytes: an unreadable length prefix or a body shorter than announced is an error, and a
+   request whose sub-channel name cannot be read is not handled and has no effect (DataInput: EOFException) *)
+Theorem truncated_fields_are_errors : forall bs,
+  (N.of_nat (List.length bs) < 2 -> read_utf bs = None) /\
+  (forall a b r, bs = a :: b :: r -> N.of_nat (List.length r) < a * 256 + b -> read_utf bs = None).
+Proof. exact read_utf_truncated. Qed.
+Print Assumptions truncated_fields_are_errors.
+
+Theorem truncated_request_is_ignored : forall F st req oracle ch data,
+  read_utf data = None -> model F st req oracle ch data = (false, []).
+Proof. exact truncated_request_ignored. Qed.
+Print Assumptions truncated_request_is_ignored.
+
+(* ... and differs inside them (witnesses; state st0 = Alice on lobby (requester), Bob on games).
+   Findings 1 and 6 are repaired in the code: their lemmas are facts about the pre-fix variant
+   (model none_fixed) and state that today's code (impl_bungee) now agrees with the spec on the witness. *)
 Theorem C26_1_refuted :
-  snd (impl_bungee st0 alice [] s_BungeeCord (req_of "Forward" (write_utf (tx "games") ++ payload0)))
+  snd (model none_fixed st0 alice [] s_BungeeCord (req_of "Forward" (write_utf (tx "games") ++ payload0)))
     = [EForward (tx "games") (tx "MyChan" ++ write_u16 3 ++ [1; 2; 3])] /\
   snd (spec_bungee st0 alice [] s_BungeeCord (req_of "Forward" (write_utf (tx "games") ++ payload0)))
+    = [EForward (tx "games") payload0] /\
+  snd (impl_bungee st0 alice [] s_BungeeCord (req_of "Forward" (write_utf (tx "games") ++ payload0)))
     = [EForward (tx "games") payload0].
 Proof. exact refuted_1. Qed.
 Print Assumptions C26_1_refuted.
@@ -146,21 +164,23 @@ Proof. exact refuted_4. Qed.
 Print Assumptions C26_4_refuted.
 
 Theorem C26_5_refuted :
-  impl_adapter none_fixed st0 alice (tx "games") payload0 =
-    [mkW (tx "Bob") true s_BungeeCord (tx "MyChan" ++ write_u16 3 ++ [1; 2; 3])] /\
-  holds_adapter st0 alice (tx "games") payload0 (impl_adapter none_fixed st0 alice (tx "games") payload0) = false /\
-  holds_adapter st0 alice (tx "games") payload0 (impl_adapter (mkF true false false false false) st0 alice (tx "games") payload0) = false /\
+  impl_adapter current st0 alice (tx "games") payload0 = [mkW (tx "Bob") true s_BungeeCord payload0] /\
+  holds_adapter st0 alice (tx "games") payload0 (impl_adapter current st0 alice (tx "games") payload0) = false /\
   holds_adapter st0 alice (tx "games") payload0 [mkW (tx "Bob") false s_BungeeCord payload0] = true.
 Proof. exact refuted_5. Qed.
 Print Assumptions C26_5_refuted.
 
 Theorem C26_6_refuted :
-  snd (impl_bungee st0 alice [] s_BungeeCord
+  snd (model none_fixed st0 alice [] s_BungeeCord
          (req_of "Forward" (write_utf (tx "games") ++ write_utf (tx "MyChan") ++ [255; 255]))) = [EPanic] /\
-  snd (impl_bungee st0 alice [] s_BungeeCord
+  snd (model none_fixed st0 alice [] s_BungeeCord
          (req_of "Forward" (write_utf (tx "games") ++ write_utf (tx "MyChan") ++ [0; 9; 1]))) = [EForward (tx "games") []] /\
   snd (spec_bungee st0 alice [] s_BungeeCord
-         (req_of "Forward" (write_utf (tx "games") ++ write_utf (tx "MyChan") ++ [255; 255]))) = [].
+         (req_of "Forward" (write_utf (tx "games") ++ write_utf (tx "MyChan") ++ [255; 255]))) = [] /\
+  snd (impl_bungee st0 alice [] s_BungeeCord
+         (req_of "Forward" (write_utf (tx "games") ++ write_utf (tx "MyChan") ++ [255; 255]))) = [] /\
+  snd (impl_bungee st0 alice [] s_BungeeCord
+         (req_of "Forward" (write_utf (tx "games") ++ write_utf (tx "MyChan") ++ [0; 9; 1]))) = [].
 Proof. exact refuted_6. Qed.
 Print Assumptions C26_6_refuted.
 
